@@ -509,10 +509,26 @@ func runWorkloadIn(in wlInput, scratch []byte) (out []byte) {
 		script(buffer.NewLexerBytes(append(make([]byte, 0, len(d)+2), d...)))
 		script(parse.NewInputString(string(d)))
 	case wlStreamLexer:
-		z := buffer.NewStreamLexerSize(&yieldReader{data: d, chunk: 1 + in.opt%6}, in.opt%9)
+		var z *buffer.StreamLexer
+		every := 2 + in.opt%5
+		limit := 400
+		if in.opt&16 != 0 {
+			// default constructor, reader delivering big chunks, one token longer than the
+			// default buffer (forces the lexer to grow it), then ordinary tokens
+			long := bytes.ReplaceAll(d, []byte(" "), []byte("_"))
+			long = bytes.Repeat(append(long, '_'), 5000/(len(long)+1)+1)
+			d = append(append(long, ' '), d...)
+			z = buffer.NewStreamLexer(&yieldReader{data: d, chunk: 1000 + in.opt})
+			every = 1 << 30
+			limit = 30000
+		} else {
+			z = buffer.NewStreamLexerSize(&yieldReader{data: d, chunk: 1 + in.opt%6}, in.opt%9)
+		}
 		n := 0
-		for i := 0; i < 400; i++ {
-			call()
+		for i := 0; i < limit; i++ {
+			if i < 400 || i%64 == 0 {
+				call()
+			}
 			c := z.Peek(0)
 			if c == 0 && z.Err() != nil {
 				t.add("end", z.Err())
@@ -520,7 +536,7 @@ func runWorkloadIn(in wlInput, scratch []byte) (out []byte) {
 			}
 			z.Move(1)
 			n++
-			if c == ' ' || n%(2+in.opt%5) == 0 {
+			if c == ' ' || n%every == 0 {
 				b := z.Shift()
 				t.add("shift", b)
 				if in.opt&1 == 1 {
@@ -529,6 +545,9 @@ func runWorkloadIn(in wlInput, scratch []byte) (out []byte) {
 			}
 		}
 		t.add("lexeme", z.Lexeme())
+		call()
+		z2 := buffer.NewStreamLexer(&yieldReader{data: d, chunk: 7})
+		t.add("second", int(z2.Peek(0)), z2.Err())
 	case wlIndenter:
 		w := &yieldWriter{}
 		ind := parse.NewIndenter(w, 1+in.opt%4)
